@@ -222,6 +222,16 @@ def str_to_int_unlimited(s: str) -> int:
     return v if not is_negative else -v
 
 
+def string_to_z3_literal(s: str) -> str:
+    """
+    Prepare a Python string for z3.StringVal so that Z3 receives exactly the characters of `s`.
+
+    Z3 decodes the escape sequences \\u{h..h} and \\uhhhh inside string literals (z3.StringVal produces them itself for
+    characters outside printable ASCII), so a backslash written by the caller must be escaped too.
+    """
+    return s.replace("\\", "\\u{5c}")
+
+
 #
 # Some global variables
 #
@@ -497,7 +507,7 @@ class BackendZ3(Backend):
 
     @condom
     def StringV(self, ast):
-        return z3.StringVal(ast.args[0], ctx=self._context)
+        return z3.StringVal(string_to_z3_literal(ast.args[0]), ctx=self._context)
 
     @condom
     def StringS(self, ast):
